@@ -105,6 +105,23 @@ theorem store_refines (ops : List SOp) (id : UInt16) :
     | delete i => simp only [applyS, specS, PacketStore.lookup_delete, h k]
     | reset => rfl
 
+/-- `NewPacketStoreWithPackets`: the store rebuilt from a list of packets (what a persistent backend kept) -/
+def restore (ps : List Packet) : PacketStore := ps.foldl PacketStore.save {}
+
+theorem restore_eq_saves (ps : List Packet) : restore ps = (ps.map SOp.save).foldl applyS {} := by
+  unfold restore
+  suffices H : ∀ s : PacketStore, ps.foldl PacketStore.save s = (ps.map SOp.save).foldl applyS s from H {}
+  induction ps with
+  | nil => intro s; rfl
+  | cons p ps ih => intro s; simp only [List.foldl_cons, List.map_cons, applyS]; exact ih _
+
+/-- a restored store, used further in any way, is the map that the same saves followed by the same history give —
+    whatever the restore list holds (ids repeated: the later packet wins, once; id-less packets: ignored) -/
+theorem restore_then_history_refines (ps : List Packet) (ops : List SOp) (id : UInt16) :
+    (ops.foldl applyS (restore ps)).lookup id = ((ps.map SOp.save ++ ops).foldl specS (fun _ => none)) id := by
+  rw [restore_eq_saves, ← List.foldl_append]
+  exact store_refines _ id
+
 theorem store_keys_nodup (ops : List SOp) : ((ops.foldl applyS {}).entries.map (·.1)).Nodup := by
   suffices H : ∀ s : PacketStore, s.KeysNodup → (ops.foldl applyS s).KeysNodup from
     H {} PacketStore.keysNodup_empty
@@ -123,6 +140,13 @@ theorem store_all_exact (ops : List SOp) (p : Packet) :
     p ∈ (ops.foldl applyS {}).all ↔ ∃ id, (ops.foldl specS (fun _ => none)) id = some p := by
   rw [PacketStore.mem_all_iff _ (store_keys_nodup ops)]
   simp only [store_refines]
+
+theorem restore_keys_nodup (ps : List Packet) (ops : List SOp) :
+    ((ops.foldl applyS (restore ps)).entries.map (·.1)).Nodup := by
+  rw [restore_eq_saves, ← List.foldl_append]
+  exact store_keys_nodup _
+
+example : (restore [.pubrel 1, .pingreq, .pubrel 1, .puback 2]).all = [.pubrel 1, .puback 2] := by decide
 
 theorem save_ignores_idless (s : PacketStore) (p : Packet) (h : p.getID = none) : s.save p = s :=
   PacketStore.save_of_none s p h
